@@ -239,7 +239,7 @@ func ngRequested() []string {
 		out = append(out, "s"+hxs(v))
 	}
 	// unknown older / in between / newer, the neighbours of the 2026-07-28 threshold, and odd strings
-	for _, v := range []string{"2024-01-01", "2025-08-01", "2027-01-01", "2026-07-27", "2026-07-29", "2026-07-28x", "1", "zzz", " ", "2025-11-25 ", "a\nb", "é"} {
+	for _, v := range []string{"2024-01-01", "2025-08-01", "2027-01-01", "2026-07-27", "2026-07-29", "2026-07-28x", "1", "zzz", " ", "2025-11-25 ", "2026-07-28 ", "\t2027", "a\nb", "a\x7fb", "é"} {
 		out = append(out, "s"+hxs(v))
 	}
 	return out
